@@ -60,6 +60,14 @@ BRACKET_TEMPLATES = [
     ('[[:digit:]-a]', S(False, ('p', 'digit'), ('c', '-'), ('c', 'a'))),
     ('[\\]-a]', S(False, ('r', ']', 'a'))), ('[a\\-c]', S(False, ('c', 'a'), ('c', '-'), ('c', 'c'))),
     ('[a-\\-]', S(False)),   # reversed range a..-  : matches nothing
+    # a hyphen between a member and a POSIX class is a member itself; what follows the class is unaffected by it
+    ('[z-[:digit:]!]', S(False, ('c', 'z'), ('c', '-'), ('p', 'digit'), ('c', '!'))),
+    ('[z-[:digit:]a]', S(False, ('c', 'z'), ('c', '-'), ('p', 'digit'), ('c', 'a'))),
+    ('[!z-[:digit:]+]', S(True, ('c', 'z'), ('c', '-'), ('p', 'digit'), ('c', '+'))),
+    ('[b-[:upper:]a-c]', S(False, ('c', 'b'), ('c', '-'), ('p', 'upper'), ('r', 'a', 'c'))),
+    ('[[:digit:]a-f]', S(False, ('p', 'digit'), ('r', 'a', 'f'))),
+    ('[![:digit:]a-f]', S(True, ('p', 'digit'), ('r', 'a', 'f'))),
+    ('[a-c[:digit:]x-z]', S(False, ('r', 'a', 'c'), ('p', 'digit'), ('r', 'x', 'z'))),
     # a range that ends in a hyphen, followed by another range / a member / a hyphen
     ('[+--b-d]', S(False, ('r', '+', '-'), ('r', 'b', 'd'))), ('[!+--b-d]', S(True, ('r', '+', '-'), ('r', 'b', 'd'))),
     ('[+--ab-d]', S(False, ('r', '+', '-'), ('c', 'a'), ('r', 'b', 'd'))),
